@@ -18,6 +18,36 @@ def load_prop_module(pid):
     return importlib.import_module("props." + pid)
 
 
+def install_guards():
+    """An exception inside a translator / tie stage (a translator that cannot read changed code) must
+    not keep the rest of the check from running: the correspondence runs and the oracle are what can
+    still exhibit a concrete failing input.  The exception is recorded as a problem of the run (the
+    verdict is then a VIOLATION, with or without a failing input)."""
+    import functools
+    import types
+
+    def guard(fn, label):
+        @functools.wraps(fn)
+        def wrapped(chk, *a, **kw):
+            try:
+                return fn(chk, *a, **kw)
+            except Exception:
+                tb = traceback.format_exc()
+                sys.stderr.write(tb)
+                chk.build_problems.append(("%s raised an exception on this source tree" % label, tb[-1500:]))
+                return False
+        wrapped._guarded = True
+        return wrapped
+
+    for name, mod in list(sys.modules.items()):
+        if not isinstance(mod, types.ModuleType) or not (name.startswith("areas.") or name == "vlib"):
+            continue
+        for attr in ("tie_run", "tie2_run", "link_level_run", "translator_tie"):
+            fn = getattr(mod, attr, None)
+            if callable(fn) and not getattr(fn, "_guarded", False):
+                setattr(mod, attr, guard(fn, "%s.%s" % (name, attr)))
+
+
 def main():
     ap = argparse.ArgumentParser()
     ap.add_argument("prop", nargs="?")
@@ -43,6 +73,7 @@ def main():
         if a.replay:
             return mod.replay(a.replay)
         chk = vlib.Check(a.prop, a.tier, seed)
+        install_guards()
         try:
             return mod.run(chk)
         except Exception:
